@@ -605,6 +605,7 @@ type c54outcome struct {
 	panicked  any
 	stack     string
 	returned  bool
+	hung      bool // at quiescence the dial had not returned
 	trailing  []byte
 	trailErr  error
 	fwdCalls  int
@@ -684,15 +685,33 @@ func c54run(t *testing.T, cs *c54case, seen *c54seen, out *c54outcome) {
 			out.returned = true
 		}()
 		synctest.Wait() // quiescence: every goroutine of the bubble is blocked on a pipe/channel or gone
+		finished := false
 		select {
 		case <-dialDone:
+			finished = true
 		default:
 		}
-		if out.returned && out.err == nil && out.panicked == nil {
+		out.hung = !finished
+		if finished && out.returned && out.err == nil && out.panicked == nil {
 			// bytes that followed a complete reply must still be there, untouched
 			if _, consumed, ok, _ := c54parseReply(cs.script.reply); ok && consumed < len(cs.script.reply) {
-				out.trailing = make([]byte, len(cs.script.reply)-consumed)
-				_, out.trailErr = io.ReadFull(cc, out.trailing)
+				buf := make([]byte, len(cs.script.reply)-consumed)
+				var n int
+				var rerr error
+				trailDone := make(chan struct{})
+				go func() {
+					defer close(trailDone)
+					n, rerr = io.ReadFull(cc, buf)
+				}()
+				synctest.Wait()
+				select {
+				case <-trailDone:
+					out.trailing, out.trailErr = buf[:n], rerr
+				default:
+					// fewer bytes are left than the server sent after the reply: the reader is stuck
+					out.trailErr = fmt.Errorf("read of the %d bytes that followed the reply blocks: some were consumed by the dial", len(buf))
+					defer func() { <-trailDone }()
+				}
 			}
 		}
 		cancel()
@@ -727,11 +746,11 @@ func TestVerif_C54(t *testing.T) {
 			c.Violation("client-panic", "%s: panic %v (server script: method=%s auth=%s reply=%s [%s])\n%s", dest, out.panicked, cs.Method, cs.AuthRep, cs.Reply, cs.ReplyWhy, out.stack)
 			return
 		}
-		if !out.returned && len(seen.extra) > 0 {
+		if out.hung && len(seen.extra) > 0 {
 			c.Violation("request-after-failed-negotiation", "%s: after method reply=%s auth reply=%s the client sent %x and waits for an answer", dest, cs.Method, cs.AuthRep, seen.extra)
 			return
 		}
-		if !out.returned {
+		if out.hung || !out.returned {
 			c.Violation("client-hangs", "%s: at quiescence the dial has not returned; server phase %q, script: method=%s auth=%s reply=%s [%s]", dest, seen.phase, cs.Method, cs.AuthRep, cs.Reply, cs.ReplyWhy)
 			return
 		}
